@@ -287,8 +287,12 @@ def response_part(job, r):
             r.observe(None)
             r.count('bitflips_tried')
             if rc == 0:
-                if version == 2 or sig != honest_sig:
-                    body = honest(w.last_req) if w.last_req else b''
+                body = honest(w.last_req) if w.last_req else b''
+                # version 1 authenticates the header and the payload element (each as a whole, their own flag bits included); what it does not cover are
+                # the non-critical / forward bits of the outermost header and of the MAC element's own header
+                mac_off = len(body) - (3 + R.alg_len(alg))
+                v1_free = {1, 2, mac_off * 8 + 1, mac_off * 8 + 2}
+                if version == 2 or sig != honest_sig or pos not in v1_free:
                     where = 'digest' if pos // 8 >= len(body) - R.alg_len(alg) else ('outer-header' if pos < 32 else 'body')
                     r.viol('response:%s:v%d:bitflip-%s-delivered' % (transport, version, where), 'response with bit %d of %d flipped delivered content (%s)' % (pos, nbits, 'same signature' if sig == honest_sig else 'OTHER signature'),
                            'key=%s alg=%d response=%s bit=%d' % (key.hex(), alg, body.hex(), pos))
